@@ -144,6 +144,24 @@ func (x *Exec) ghostCall(st *State, name string, args []*Val) {
 	}
 }
 
+// ghostRet remembers the scalar results of the last call: lastret("name", i)
+func (x *Exec) ghostRet(st *State, name string, res *Val) {
+	if res == nil {
+		return
+	}
+	if res.K == kScalar {
+		st.ghost[fmt.Sprintf("lastret:%s:0", name)] = res.T
+		return
+	}
+	if res.K == kTuple {
+		for i, f := range res.F {
+			if f != nil && f.K == kScalar {
+				st.ghost[fmt.Sprintf("lastret:%s:%d", name, i)] = f.T
+			}
+		}
+	}
+}
+
 func inModule(f *ssa.Function) bool {
 	p := f.Pkg
 	if p == nil && f.Parent() != nil {
@@ -216,7 +234,9 @@ func (x *Exec) invoke(st *State, fr *Frame, call *ssa.CallCommon, recv *Val, arg
 	}
 	x.note("interface call without contract havoc'd: " + name)
 	x.ghostCall(st, name, args)
-	cont(st, x.havocCall(st, sanitize(call.Method.Name()), append([]*Val{recv}, args...), call.Signature().Results()))
+	hres := x.havocCall(st, sanitize(call.Method.Name()), append([]*Val{recv}, args...), call.Signature().Results())
+	x.ghostRet(st, name, hres)
+	cont(st, hres)
 }
 
 // ---------- call by contract ----------
@@ -315,6 +335,7 @@ func (x *Exec) applyContract(st *State, fr *Frame, c *Contract, sig *types.Signa
 		x.assume(st, sctx.evalBool(cl), "callee-post "+cname+"."+cl.ID)
 	}
 	x.ghostCall(st, cname, args)
+	x.ghostRet(st, cname, res)
 	if c.Extern {
 		x.note("assumed contract (extern): " + cname)
 	} else if c.has("trusted") {
